@@ -7,7 +7,8 @@ assembled from the last `view` line plus the per-line tables of the external pre
 `feeBad`, produced by the harness from the real `validation.ValidateTx` / `ValidateFee`).  Map enumeration inputs:
 `tie` (labels `txMap.Sorted` met first; then non-priority before priority labels) and the `build` enumeration
 (the order of `ctx.sortedTxs`, re-sorted by the model).  `sord` is the order of first appearance in `pend`
-(the visiting order of senders does not influence the result; the theorems hold for every order). -/
+(each sender's promotion reads and writes only that sender's queues; the theorems hold for every visiting order, and the
+real runs — Go's random map order — are compared against this one on every line). -/
 namespace IdenaModel.Drv.C14
 open IdenaModel.Mempool IdenaModel.Drv
 
